@@ -48,6 +48,29 @@ Theorem C13_bounce_line : forall vb c, ~ In 0%N c -> vb <> [] -> (bounce_line vb
 Proof. exact bounce_line_eq. Qed.
 Print Assumptions C13_bounce_line.
 
+(** The boolean checker that is run on the observations of the C code (return value, whose filterconf became
+    the user's, names opened): a verdict "ok" entails confinement, no configuration taken from the domain
+    directory itself (conf 2) or from outside (conf 3) as the user's, and - for a local part that is a path
+    component and a domain with a directory record - the three implications of C13_exists for the concrete
+    directory [fs_of_layout lay]. *)
+Theorem C13_checker_sound : forall db lay vbfile domain local z conf ps,
+  spec_ok_C13 db lay vbfile domain local z conf ps = true ->
+  confined ps /\ (conf = 0 \/ conf = 1)%N /\
+  (component local -> (length domain + 3 < VP_CDBKEY)%nat -> domain_state db domain = Some DomTree ->
+   let fs := fs_of_layout lay in let vb := vpopbounce_of vbfile in
+   (0 < z -> mailbox fs vb local /\ code_form fs vb local z) /\
+   (z = 0 -> ~ mailbox fs vb local) /\
+   (z < 0 -> io_error fs vb local)).
+Proof. exact checker_sound. Qed.
+Print Assumptions C13_checker_sound.
+
+(** and the model's own observation always gets "ok" *)
+Theorem C13_model_passes_checker : forall db lay vbfile domain local,
+  let o := user_exists db (fs_of_layout lay) (vpopbounce_of vbfile) domain local in
+  spec_ok_C13 db lay vbfile domain local (rc o) (conf_of o) (probes o) = true.
+Proof. exact model_passes_checker. Qed.
+Print Assumptions C13_model_passes_checker.
+
 (** the hypotheses are met by a non-trivial state: a directory with .qmail-sales-default and a bounce
     catch-all; "sales-eu.north" is accepted with 4, "nobody" gets 0, ".." gets 0 without any lookup *)
 Example C13_nonvacuous :
